@@ -142,6 +142,30 @@ func genServer(g *genCtx) {
 		}
 		g.op("stop ctx=ample")
 	}
+	// the logging pair in both orders around every manner of handler, with small and large bodies, several requests
+	// per connection (appended: every case has its own PRNG stream, the cases above are unchanged)
+	nPair := 6
+	if !g.quick() {
+		nPair = 24
+	}
+	for t := 0; t < nPair; t++ {
+		g.newCase("kind=serve")
+		r := g.rng
+		names := [][]string{{"LOGREQ", "LOGRESP"}, {"LOGRESP", "LOGREQ"}, {"LOGREQ", "A", "LOGRESP"}, {"B", "LOGREQ", "LOGRESP", "LOGREQ"},
+			{"LOGREQ", "LOGREQ", "LOGRESP", "LOGRESP"}, {"LOGRESP", "C", "LOGREQ", "LOGRESP"}}[t%6]
+		routes := []string{}
+		for i := 1; i <= 5; i++ {
+			routes = append(routes, fmt.Sprintf("%s:/m%d:%d", []string{"POST", "PUT"}[r.intn(2)], i, i))
+		}
+		g.op("serve http=%s https=off mw=%s grpc=0 bundles=%d", strings.Join(routes, ","), strings.Join(names, ","), 1+t%2)
+		for rep := 0; rep < 3; rep++ {
+			for _, rt := range routes {
+				f := strings.Split(rt, ":")
+				g.op("req l=http m=%s p=%s body=%d", f[0], f[1], []int{5, 7, 40, 64, 65536}[r.intn(5)])
+			}
+		}
+		g.op("stop ctx=ample")
+	}
 }
 
 // ---- C18: start / stop scenarios ----
@@ -173,6 +197,12 @@ func genLifecycle(g *genCtx) {
 				// every provider only got a share of it
 				g.newCase("kind=lifecycle")
 				g.op("scenario listeners=%s inflight=1 ctx=tight timing=ready", ls)
+			}
+			if strings.Contains(ls, "http") {
+				// Stop is retried: a first Stop with an expired context gives up with the request still running, then a second
+				// Stop with an ample context — which has to wait for that request like any other Stop
+				g.newCase("kind=lifecycle")
+				g.op("scenario listeners=%s inflight=%d ctx=retry timing=ready", ls, 1+len(ls)%3)
 			}
 		}
 	}
@@ -277,6 +307,9 @@ func (h *gateHello) SayHello(ctx context.Context, req *proto.HelloRequest) (*pro
 // tightCtx: the Stop context is 3 s and the in-flight request is released 1.8 s after Stop was called.
 var tightCtx bool
 
+// retryCtx: a first Stop with an expired context precedes the Stop (ample context) the scenario observes.
+var retryCtx bool
+
 // slowStartLog: the caller-supplied logger takes its time over the "Starting …" lines (a logger that writes to a slow
 // sink).  A Stop that follows Start immediately then arrives before the providers have begun to listen.
 var slowStartLog bool
@@ -299,6 +332,14 @@ var bundleTwice bool
 
 func (ls *liveServer) handler(id int) http.HandlerFunc {
 	return func(w http.ResponseWriter, r *http.Request) {
+		early := id%5 == 3 && r.ContentLength >= 0 && r.ContentLength <= 64 && r.URL.Path != "/block"
+		if early {
+			// a handler that starts its answer before it has read the (small) request body
+			w.Header().Set("X-H", fmt.Sprint(id))
+			w.Header().Set("Content-Type", "application/x-tv")
+			w.WriteHeader(210 + id)
+			w.Write([]byte(fmt.Sprintf("h%d:", id)))
+		}
 		body, _ := io.ReadAll(r.Body)
 		rid := r.Header.Get("X-Rid")
 		ls.log.mu.Lock()
@@ -309,6 +350,10 @@ func (ls *liveServer) handler(id int) http.HandlerFunc {
 		if r.URL.Path == "/block" {
 			ls.entered <- struct{}{}
 			<-ls.gate
+		}
+		if early {
+			w.Write(body)
+			return
 		}
 		w.Header().Set("X-H", fmt.Sprint(id))
 		if id%5 == 4 {
@@ -653,7 +698,8 @@ func execServer(x *execCtx) {
 				return fmt.Sprintf("stopret=%d stoperr=%d wgreleased=%d portsfree=%s", ret, serr, released, ls.portsFree())
 			case "scenario":
 				tightCtx = f["ctx"] == "tight"
-				return runScenario(f["listeners"], atoi(f["inflight"]), f["ctx"] == "ample" || tightCtx, f["timing"] == "ready")
+				retryCtx = f["ctx"] == "retry"
+				return runScenario(f["listeners"], atoi(f["inflight"]), f["ctx"] == "ample" || tightCtx || retryCtx, f["timing"] == "ready")
 			}
 			return "bad-op"
 		})
@@ -719,7 +765,7 @@ func runScenario(listeners string, inflight int, ample, ready bool) string {
 	// in-flight gRPC calls (held by the gated service until released)
 	gres := make(chan string, inflight)
 	gstarted := 0
-	if has["grpc"] && ready {
+	if has["grpc"] && ready && !retryCtx { // (a first, expired Stop cuts gRPC calls off: none are held in a retry scenario)
 		for i := 0; i < inflight; i++ {
 			go func() { gres <- ls.grpcCall("block") }()
 		}
@@ -730,6 +776,9 @@ func runScenario(listeners string, inflight int, ample, ready bool) string {
 			case <-time.After(5 * time.Second):
 			}
 		}
+	}
+	if retryCtx {
+		ls.stop(false) // gives up at once; what it returns is the business of the expired-context scenarios
 	}
 	stopDone := make(chan [2]int, 1)
 	go func() { r, e := ls.stop(ample); stopDone <- [2]int{r, e} }()
